@@ -71,10 +71,12 @@ def _normalise(tree):
     for fn in ast.walk(tree):
         if not isinstance(fn, (ast.FunctionDef, ast.AsyncFunctionDef)):
             continue
-        uses = {}
+        loads = {}
         for n in ast.walk(fn):
-            if isinstance(n, ast.Name):
-                uses[n.id] = uses.get(n.id, 0) + 1
+            if isinstance(n, ast.Name) and isinstance(n.ctx, ast.Load):
+                loads[n.id] = loads.get(n.id, 0) + 1
+        # candidate pairs: ``t = <expr>`` directly followed by ``return t``
+        pairs = {}
         for holder in ast.walk(fn):
             for field in ("body", "orelse", "finalbody"):
                 body = getattr(holder, field, None)
@@ -86,11 +88,19 @@ def _normalise(tree):
                         isinstance(b, ast.Return) and \
                         isinstance(b.value, ast.Name) and \
                         b.value.id == a.targets[0].id and \
-                        uses.get(b.value.id) == 2:
-                    r = ast.Return(value=a.value)
-                    ast.copy_location(r, a)
-                    r.end_lineno = getattr(b, "end_lineno", None)
-                    body[-2:] = [r]
+                        a.targets[0].id not in set(
+                            x.id for x in ast.walk(a.value)
+                            if isinstance(x, ast.Name)):
+                    pairs.setdefault(b.value.id, []).append((body, a, b))
+        for name, ps in pairs.items():
+            # the temporary is read by those returns and by nothing else
+            if loads.get(name) != len(ps):
+                continue
+            for body, a, b in ps:
+                r = ast.Return(value=a.value)
+                ast.copy_location(r, a)
+                r.end_lineno = getattr(b, "end_lineno", None)
+                body[-2:] = [r]
     return tree
 
 
